@@ -134,6 +134,11 @@ class Fn:
         if norm(q) == "bool":
             return e
         bits, signed = self.ity(q)
+        m = re.fullmatch(r"\((-?\d+) : Int\)", e)
+        if m:       # conversion of a literal: fold it (value = the wrapped literal)
+            v = int(m.group(1))
+            v = (v + 2 ** (bits - 1)) % 2 ** bits - 2 ** (bits - 1) if signed else v % 2 ** bits
+            return "(%d : Int)" % v
         return "(wrapS %d %s)" % (bits, e) if signed else "(wrapU %d %s)" % (bits, e)
 
     def is_unsigned(self, n):
